@@ -21,6 +21,9 @@ OUT = VERIF if os.path.realpath(REPO) == '/repo' else os.path.join(REPO, '.pyvc-
 sys.path.insert(0, VERIF)
 sys.path.insert(0, REPO)
 
+import logging  # noqa: E402
+logging.disable(logging.CRITICAL)      # the repository's own log output is not part of a check's output
+
 import z3  # noqa: E402
 
 from .engine import Registry, Unsupported, SpecError  # noqa: E402
